@@ -756,6 +756,15 @@ def run(rep, tier="quick", srcdir=None, only=None):
         # a barrier waiter must complete as a barrier: the block-object sync entry hands a DC_FLAG_BARRIER item to the barrier entry only (shared with C04)
         from . import C04
         C04.rule_SB11(rep, prog, q)
+    if want("C04-AI17"):
+        # ... nor may a reservation be parked in the state twice (shared with C04)
+        from . import C04
+        C04.rule_AI17(rep, prog, q)
+    if want("C04-AI3"):
+        # a width unit handed on with an item and ALSO kept by the drainer is returned twice: the width field underflows into the suspend bits and the
+        # queue never drains again - items stranded behind a queue that looks suspended (shared with C04)
+        from . import C04
+        C04.rule_AI3(rep, prog, q)
     if want("C04-TR2"):
         # the barrier's width reservation is made once: a double reservation strands the barrier and everything queued behind it (shared with C04)
         from . import C04
